@@ -54,5 +54,4 @@ br_i31_decode(uint32_t *x, const void *src, size_t len)
 		x[v ++] = acc;
 	}
 	x[0] = br_i31_bit_length(x + 1, v - 1);
-	BR_VERIF_PUBLIC_MEM(x, sizeof *x);
 }
